@@ -208,6 +208,28 @@ theorem strip_sublist (attrs : List α) : (strip view attrs).Sublist attrs := by
 theorem strip_idempotent (attrs : List α) : strip view (strip view attrs) = strip view attrs := by
   simp [strip_removes_only, List.filter_filter]
 
+/-- Stripping looks at one attribute at a time: no state is carried from one attribute (or one media section)
+to the next, so stripping a concatenation is the concatenation of the strippings. -/
+theorem strip_append (a b : List α) : strip view (a ++ b) = strip view a ++ strip view b := by
+  simp [strip_removes_only]
+
+/-- **Nothing else is lost, exactly**: the list comes back unchanged iff it held no `Bad` attribute. -/
+theorem strip_unchanged_iff (attrs : List α) : strip view attrs = attrs ↔ ∀ a ∈ attrs, ¬ Bad (view a) := by
+  rw [strip_removes_only, List.filter_eq_self]
+  constructor
+  · intro h a ha; rw [← bad_iff]; simpa using h a ha
+  · intro h a ha; have := h a ha; rw [← bad_iff] at this; simpa using this
+
+/-- Accounting: survivors plus removed `Bad` attributes are all the attributes (multiplicities included). -/
+theorem strip_count (attrs : List α) :
+    (strip view attrs).length + (attrs.filter (fun a => bad (view a))).length = attrs.length := by
+  rw [strip_removes_only]
+  induction attrs with
+  | nil => rfl
+  | cons a r ih =>
+    simp only [List.filter_cons]
+    cases bad (view a) <;> simp <;> omega
+
 /-- In terms of the ranges: a surviving, parseable host candidate's address is outside every local
 range (`isLocal_spec`), is not loopback and not unspecified. -/
 theorem strip_survivor_not_local (attrs : List α) (a : α) (ha : a ∈ strip view attrs)
